@@ -663,11 +663,45 @@ class Gen:
             elif kind in ("any", "all"):
                 self.rw_any(it, src, fn, body, n, ed, pieces, idx, kind)
 
+        # R15: X.clone().or_else(|| Y.clone())  ->  __clone_or_else(&X, &Y)   (X, Y verbatim)
+        # R14: V.extend(E)                       ->  __vec_extend(&mut V, E)
+        for n in walk(body):
+            if n["k"] != "MethodCall":
+                continue
+            if n["a"]["method"] == "or_else":
+                rc, args = kid(n, "receiver"), kids(n, "arg")
+                if (rc["k"] == "MethodCall" and rc["a"]["method"] == "clone" and not kids(rc, "arg") and len(args) == 1
+                        and args[0]["k"] == "Closure" and not kids(args[0], "input")
+                        and kid(args[0], "body")["k"] == "MethodCall" and kid(args[0], "body")["a"]["method"] == "clone"
+                        and not kids(kid(args[0], "body"), "arg")):
+                    X, Y = kid(rc, "receiver"), kid(kid(args[0], "body"), "receiver")
+                    ed.replace(n["s"], X["s"], "__clone_or_else(&", ("rule", "R15"))
+                    ed.replace(X["e"], Y["s"], ", &", ("rule", "R15"))
+                    ed.replace(Y["e"], n["e"], ")", ("rule", "R15"))
+                    self.fired("R15")
+                else:
+                    raise Inconclusive(f"unsupported construct: .or_else() shape at {src.rel}:{src.line_of(n['s'])}")
+            elif n["a"]["method"] == "extend" and len(kids(n, "arg")) == 1:
+                X, E = kid(n, "receiver"), kids(n, "arg")[0]
+                ed.replace(n["s"], X["s"], "__vec_extend(&mut ", ("rule", "R14"))
+                ed.replace(X["e"], E["s"], ", ", ("rule", "R14"))
+                ed.replace(E["e"], n["e"], ")", ("rule", "R14"))
+                self.fired("R14")
+
         # R4: (A..B).map(closure_local).collect()
         used_closures = set()
         for n in walk(body):
             if n["k"] == "MethodCall" and n["a"]["method"] == "collect":
                 rc = kid(n, "receiver")
+                # R7: A.into_iter().chain(B).collect()  ->  __btree_chain_collect(A, B)
+                if rc["k"] == "MethodCall" and rc["a"]["method"] == "chain" and len(kids(rc, "arg")) == 1 \
+                        and kid(rc, "receiver")["k"] == "MethodCall" and kid(rc, "receiver")["a"]["method"] == "into_iter":
+                    A, B = kid(kid(rc, "receiver"), "receiver"), kids(rc, "arg")[0]
+                    ed.replace(n["s"], A["s"], "__btree_chain_collect(", ("rule", "R7"))
+                    ed.replace(A["e"], B["s"], ", ", ("rule", "R7"))
+                    ed.replace(B["e"], n["e"], ")", ("rule", "R7"))
+                    self.fired("R7")
+                    continue
                 if rc["k"] == "MethodCall" and rc["a"]["method"] == "map":
                     arg = kids(rc, "arg")[0]
                     rng = kid(rc, "receiver")
